@@ -158,6 +158,14 @@ NoContractViolation == mon.bad = <<>>
 BoundedTasks == Pending <= ModelTaskBound
 Quiescent == mpc = "done" /\ \A k \in Tasks : task[k].st \in {"none", "fin"}
 AllClosed == Quiescent => (mon.live = {} /\ \A k \in Tasks : tr[k] # "open")
+\* "keeps reconnecting after every failure and every loss until it is closed", as a state invariant: while nobody has asked it to stop,
+\* the manager is never idle - it is about to spawn an attempt, waits for a task that exists (and therefore ends), or holds a connection
+\* whose loss will wake it
+AlwaysTrying ==
+  (~closing /\ mpc # "done") =>
+     \/ mpc = "top"
+     \/ (mpc = "wait1" /\ task[Cur].st \in {"start", "sleep", "factory", "fin"})
+     \/ (mpc = "wait2" /\ conn # 0 /\ (tr[conn] = "open" \/ pdone[conn]))
 \* Witnesses (vacuity guards): invariants TLC must find VIOLATED
 W_ReconnectedAfterLoss == ~(\E j \in Tasks, k \in Tasks : j # k /\ tr[j] = "closed" /\ tr[k] = "open")
 W_CloseDuringAttempt == ~(closing /\ \E k \in Tasks : task[k].st = "factory")
